@@ -36,6 +36,11 @@ Kinds of case (field "kind"):
            legal symbols '+', '-', '.' (every assignment for small n), windows streamed with their own chunking or in memory,
            track values that are no palindromes under any window; rows and mean(axis=0); the direction of a '.' window is the
            one the in-memory pipeline uses (signatures genomic:stranded-windows:...)
+  windows  streamed intervals -> get_location('start') -> get_windows(flank=k | window_size=w) for EVERY option value (flank 0..3,
+           window_size 1..8: odd and even, windows clipped at both chromosome ends) on genomes of 1..4 chromosomes x every chunking,
+           evaluated as the windows themselves, their pileup, their mask and the values of the reads' pileup under them; the stream
+           comes from chunks of a table, from Genome.read_intervals(stream=True) or from read_chunks(min_chunk_size=k) of a BED file
+           (signatures genomic:windows:<flank|window_size-odd|window_size-even>:<op>:...)
 """
 import itertools
 import os
@@ -1333,16 +1338,181 @@ def gen_file(tier, rng):
 
 
 # ----------------------------------------------------------------------------------------------------------------------
+# kind "windows": windows around the start locations of a stream of intervals, for every option of get_windows
+# ----------------------------------------------------------------------------------------------------------------------
+# interleaved so that any four consecutive options hold a flank, an odd and an even window_size
+WINDOW_OPTIONS = (("flank", 0), ("window_size", 2), ("window_size", 1), ("flank", 1), ("window_size", 4), ("window_size", 3),
+                  ("flank", 2), ("window_size", 6), ("window_size", 5), ("flank", 3), ("window_size", 8), ("window_size", 7))
+WINDOW_OPS = ("windows", "pileup", "mask:sum", "values")
+WINDOW_SOURCES = ("chunks", "read_intervals", "read_chunks")
+_WINDOWS_REF = {}
+
+
+def window_candidates(rows, sizes, option, value):
+    """the readings of 'windows around the locations' as lists of (chrom, start, stop), clipped to the chromosome:
+    flank=k: [p-k, p+k+1) (documented: 2k+1 wide); window_size=w: w wide around p: [p - w//2, p - w//2 + w); for even w the
+    location cannot be in the middle - the reading with the extra base on the left and the one with it on the right"""
+    size = dict(sizes)
+    if option == "flank":
+        lefts, width = [value], 2 * value + 1
+    else:
+        lefts, width = ([value // 2] if value % 2 else [value // 2, value // 2 - 1]), value
+    return [[(r[0], max(0, r[1] - left), min(size[r[0]], r[1] - left + width)) for r in rows] for left in lefts]
+
+
+def check_windows(col, case, tmp):
+    import numpy as np
+    import bionumpy as bnp
+    from bionumpy.streams import NpDataclassStream
+    from bionumpy.datatypes import Interval
+    from bionumpy.computation_graph import compute
+    counts, cuts, cuts2, op, source = case["counts"], case["cuts"], case.get("cuts2"), case["op"], case["source"]
+    option, value = case["option"], case["value"]
+    sizes = CHROMS[:len(counts)]
+    if len(counts) not in _GENOMES:
+        _GENOMES[len(counts)] = bnp.Genome.from_dict(dict(sizes))
+    genome = _GENOMES[len(counts)]
+    rows = genomic_rows(counts)
+    okind = option if option == "flank" else "window_size-" + ("odd" if value % 2 else "even")
+    sig = "genomic:windows:%s:%s" % (okind, op)
+    kwargs = {option: value}
+    col.case(case, contract="compute(streamed intervals -> get_location('start').get_windows(%s) -> %s) == in-memory" % (option, op))
+    names = [name for name, _ in sizes]
+
+    def table():
+        return Interval([r[0] for r in rows], [r[1] for r in rows], [r[2] for r in rows])
+
+    def istream(c):
+        return genome.get_intervals(NpDataclassStream((p for p in pieces(table(), c)), dataclass=Interval))
+
+    def triples(iv):
+        chrom = iv.chromosome
+        chrom = [names[i] for i in np.asarray(chrom.raw()).tolist()] if hasattr(chrom.encoding, "get_labels") else to_py(chrom)
+        return list(zip(chrom, np.asarray(iv.start).tolist(), np.asarray(iv.stop).tolist()))
+
+    def rows_of(r):
+        return [np.asarray(x.to_array() if hasattr(x, "to_array") else x).tolist() for x in r]
+
+    def run():
+        # the in-memory windows pick the reading (placement of an even-sized window); all values come from the plain model
+        key = (tuple(counts), option, value)
+        if key not in _WINDOWS_REF:
+            mem = genome.get_intervals(table()).get_location("start").get_windows(**kwargs)
+            _WINDOWS_REF[key] = [(str(c), int(a), int(b)) for c, a, b in
+                                 zip([x.to_string() for x in mem.chromosome], mem.start.tolist(), mem.stop.tolist())]
+        mem = _WINDOWS_REF[key]
+        cands = window_candidates(rows, sizes, option, value)
+        if mem not in cands:
+            return "in-memory", mem, cands[0]
+        wins = mem
+        if source == "chunks":
+            streamed, handle = istream(cuts), None
+        else:
+            path = os.path.join(tmp, "c11w_%s.bed" % "_".join(map(str, counts)))
+            if not os.path.exists(path):
+                with open(path, "w") as f:
+                    for r in rows:
+                        f.write("%s\t%d\t%d\n" % r[:3])
+            if source == "read_intervals":
+                streamed, handle = genome.read_intervals(path, stream=True), None
+            else:
+                handle = bnp.open(path)
+                streamed = genome.get_intervals(handle.read_chunks(min_chunk_size=case["chunk_size"]))
+        try:
+            w = streamed.get_location("start").get_windows(**kwargs)
+            if op == "windows":
+                return op, triples(w.compute()), wins
+            wpile = model_pileup(wins, sizes)
+            if op == "pileup":
+                d = compute(w.get_pileup().get_data())
+                e = list(zip(to_py(d.chromosome), d.start.tolist(), d.stop.tolist(), d.value.tolist()))
+                return op, expand_runs(e, sizes, "pileup of windows"), wpile
+            if op == "mask:sum":
+                return op, int(compute(w.get_mask().sum())), sum(1 for v in wpile.values() for x in v if x > 0)
+            if op == "values":
+                pile = model_pileup(rows, sizes)
+                return op, rows_of(compute(istream(cuts2).get_pileup()[w])), [pile[c][a:b] for c, a, b in wins]
+            raise ValueError(op)
+        finally:
+            if handle is not None:
+                handle.close()
+
+    r = col.guarded(run, sig, case)
+    if r is None:
+        return
+    what, got, exp = r
+    if what == "in-memory":
+        col.check(False, "genomic:windows:%s:in-memory-windows-are-not-the-requested-size-around-the-location" % okind, case,
+                  "in-memory windows %r, model %r" % (got, exp))
+        return
+    col.check(got == exp, sig + ":differs-from-in-memory", case, "get_windows(%s=%d): got %r expected %r" % (option, value, got, exp))
+
+
+def gen_windows(tier, rng):
+    quick = tier == "quick"
+    maxper, nmax = genomic_bounds(tier)
+    nopt, nops = len(WINDOW_OPTIONS), len(WINDOW_OPS)
+    j, used = 0, [0] * nopt
+    for nchrom in (1, 2, 3, 4):
+        for counts in itertools.product(range(maxper + 1), repeat=nchrom):
+            n = sum(counts)
+            if n == 0 or n > nmax[nchrom]:
+                continue
+            counts = list(counts)
+            for cuts in all_cuts(n):
+                j += 1
+                # 1-2 chromosomes: every option; 3-4 chromosomes: three consecutive options (a flank, an even and an odd
+                # window_size), rotating with the chunking.  The op rotates with the case (thorough: every op on one
+                # chromosome, two ops per case on two)
+                ois = range(nopt) if nchrom <= 2 else [(j * 3 + t) % nopt for t in range(3)]
+                for oi in ois:
+                    option, value = WINDOW_OPTIONS[oi]
+                    used[oi] += 1
+                    i = used[oi] + oi       # round robin per option: every option meets every op
+                    if quick or nchrom > 2:
+                        ops = (WINDOW_OPS[i % nops],)
+                    else:
+                        ops = WINDOW_OPS if nchrom == 1 else (WINDOW_OPS[i % nops], WINDOW_OPS[(i + 2) % nops])
+                    for op in ops:
+                        case = {"kind": "windows", "source": "chunks", "op": op, "counts": counts, "cuts": cuts,
+                                "option": option, "value": value}
+                        if op == "values":     # the reads' own stream: the complementary cut set
+                            case["cuts2"] = [c for c in range(1, n) if c not in cuts]
+                        yield case
+    # the file based entry points: Genome.read_intervals(stream=True) for every option; reader-made chunks for every
+    # min_chunk_size x 4 (thorough: 6) consecutive options, rotating
+    for di, counts in enumerate(([2, 2], [3, 0, 2]) if quick else ([2, 2], [3, 0, 2], [1, 3, 1], [2, 3, 1, 2])):
+        rows = genomic_rows(counts)
+        total = sum(len("%s\t%d\t%d\n" % r[:3]) for r in rows)
+        for option, value in WINDOW_OPTIONS:
+            for op in WINDOW_OPS[:3]:
+                yield {"kind": "windows", "source": "read_intervals", "op": op, "counts": counts, "cuts": [],
+                       "option": option, "value": value}
+        if di >= (1 if quick else 3):
+            continue
+        per = 4 if quick else 6
+        for k in range(12, total + 3):
+            for t in range(per):
+                oi = (k * per + t) % nopt
+                option, value = WINDOW_OPTIONS[oi]
+                used[oi] += 1
+                yield {"kind": "windows", "source": "read_chunks", "op": WINDOW_OPS[(used[oi] + oi) % 3], "counts": counts, "cuts": [],
+                       "chunk_size": k, "option": option, "value": value}
+
+
+# ----------------------------------------------------------------------------------------------------------------------
 CHECKS = {"bigcount": check_bigcount, "reduce": check_reduce, "histauto": check_histauto, "kmers": check_kmers, "groupby": check_groupby,
           "rechunk": check_rechunk, "graph": check_graph, "genomic": check_genomic,
           "chrommap": check_chrommap, "nd": check_nd, "stranded": check_stranded}
 GENS = [("rechunk", gen_rechunk), ("bigcount", gen_bigcount), ("winmean", gen_winmean), ("reduce", gen_reduce), ("histauto", gen_histauto), ("graph", gen_graph),
-        ("kmers", gen_kmers), ("groupby", gen_groupby), ("chrommap", gen_chrommap), ("genomic", gen_genomic), ("file", gen_file),
-        ("nd", gen_nd), ("stranded", gen_stranded)]
+        ("kmers", gen_kmers), ("groupby", gen_groupby), ("chrommap", gen_chrommap), ("genomic", gen_genomic), ("windows", gen_windows),
+        ("file", gen_file), ("nd", gen_nd), ("stranded", gen_stranded)]
 
 def run_case(col, case, tmp):
     if case["kind"] == "file":
         check_file(col, case, tmp)
+    elif case["kind"] == "windows":
+        check_windows(col, case, tmp)
     else:
         CHECKS[case["kind"]](col, case)
 
@@ -1354,6 +1524,7 @@ def run(tier="quick", seed=0):
                     "incl. incoming streams with empty chunks at every position, symbol/k-mer counts of chunks above the 1,000,000 block size, "
                     "mean over windows of unequal length, reductions on 1-d and 2-d chunks with axis None/0/-1, stranded windows with "
                     "strands from {+,-,.} over streamed tracks / pileups, "
+                    "windows around streamed locations for every flank / odd / even window_size, "
                     "computation-graph expressions, per-chromosome pipelines on genomes of 1..4 chromosomes with every "
                     "per-chromosome entry count, reader-made chunks for every min_chunk_size); seeded cut sets above the bound; "
                     "distinct = distinct (kind, computation, dataset, cut set); non-trivial = all (n=1 / one chunk are the base cases)",
@@ -1400,6 +1571,13 @@ def run(tier="quick", seed=0):
                    "for n<=3, else same + complementary cut set (quick: two-stream ops on 4 chromosomes only for n<=3); n=10 x 2 datasets x %s"
                    % (maxper, gmax, "10 sampled cuts" if quick else "all 512 cuts"),
         "genomic ops": list(GENOMIC_OPS),
+        "windows around streamed locations": "datasets and cuts of 'genomic' x get_windows options %s (1-2 chromosomes: all; 3-4 "
+                                             "chromosomes: 3 consecutive ones = a flank, an even and an odd window_size, rotating) x ops %s "
+                                             "(%s); file based: BED files of 4..%d lines x all options x read_intervals(stream=True); "
+                                             "BED files of 4..5 lines x read_chunks for every min_chunk_size 12..file size+2 x %d options (rotating)"
+                                             % (["%s=%d" % o for o in WINDOW_OPTIONS], list(WINDOW_OPS),
+                                                "rotating" if quick else "1 chromosome: all, 2: two per case, else rotating",
+                                                5 if quick else 8, 4 if quick else 6),
         "file": "BED files of %s lines x every min_chunk_size 12..file size+2 x {groupby, mean, bincount, pileup sum, chunk-wise filter on "
                 "the first/last chromosome + chunk_lines / chunk_entries to %s entries}" % ("4..5" if quick else "1..8", "1..3 (rotating)" if quick else "1,2,3"),
     }
